@@ -247,6 +247,12 @@ theorem OTO.WF.popitem {s : OTO α} (h : s.WF) : s.popitem.1.WF := by
     have hm := h.inverse
     grind
 
+theorem OTO.WF.popitemAs {s : OTO α} (h : s.WF) (k v : α) : (s.popitemAs k v).1.WF := by
+  unfold OTO.popitemAs
+  split
+  · next hk => exact h.remove_pair k v hk
+  · exact h.popitem
+
 theorem OTO.WF.setdefault {s : OTO α} (h : s.WF) (k d : α) : (s.setdefault k d).1.WF := by
   unfold OTO.setdefault
   cases hk : lookup k s.fwd with
@@ -269,6 +275,7 @@ theorem OTO.WF.step {s : OTO α} (h : s.WF) (op : OtoOp α) : (s.step op).1.WF :
   | setdefault k d => exact h.setdefault k d
   | pop k d => exact h.pop k d
   | popitem => exact h.popitem
+  | popitemAs k v => exact h.popitemAs k v
   | clear => exact OTO.WF.clear (s := s)
 
 theorem OTO.WF.stepSide {s : OTO α} (h : s.WF) (side : Bool) (op : OtoOp α) : (s.stepSide side op).1.WF := by
@@ -1104,6 +1111,162 @@ theorem m2mCmd_isolated {regs regs' : List (M2M α)} {c : M2MCmd α} {ret : Ret 
     next => simp at hc
 
 end m2m
+/-! ## more refinement lemmas -/
+section oto2
+variable {α : Type} [DecidableEq α]
+
+theorem OTO.update_keeps {s : OTO α} (h : s.WF) (ps : List (α × α)) (k v : α)
+    (hk : lookup k s.fwd = some v) (hd : ∀ p ∈ ps, p.1 ≠ k ∧ p.2 ≠ v) :
+    lookup k (s.update ps).fwd = some v := by
+  unfold OTO.update
+  induction ps generalizing s with
+  | nil => exact hk
+  | cons p r ih =>
+    simp only [List.foldl_cons]
+    apply ih (h.setitem p.1 p.2)
+    · rw [OTO.setitem_fwd h]
+      have := hd p (by simp)
+      grind
+    · intro q hq; exact hd q (List.mem_cons_of_mem _ hq)
+
+/-- `update` with pairs that do not collide with each other (distinct keys, distinct values - e.g. a dict
+    with distinct values, or another OneToOne) installs every one of them, the first included -/
+theorem OTO.update_installs_all {s : OTO α} (h : s.WF) (ps : List (α × α))
+    (hk : (ps.map Prod.fst).Nodup) (hv : (ps.map Prod.snd).Nodup) :
+    ∀ p ∈ ps, lookup p.1 (s.update ps).fwd = some p.2 := by
+  induction ps generalizing s with
+  | nil => simp
+  | cons q r ih =>
+    simp only [List.map_cons, List.nodup_cons, List.mem_map, not_exists, not_and] at hk hv
+    intro p hp
+    have hs : s.update (q :: r) = (s.setitem q.1 q.2).update r := rfl
+    rw [hs]
+    simp only [List.mem_cons] at hp
+    rcases hp with hp | hp
+    · subst hp
+      apply OTO.update_keeps (h.setitem _ _)
+      · rw [OTO.setitem_fwd h]; simp
+      · intro x hx
+        exact ⟨fun e => hk.1 x hx e, fun e => hv.1 x hx e⟩
+    · exact ih (h.setitem _ _) hk.2 hv.2 p hp
+
+theorem OTO.delitem_spec (s : OTO α) (k a : α) :
+    (lookup k s.fwd = none → s.delitem k = (s, .err .KeyError)) ∧
+    (∀ v, lookup k s.fwd = some v → (s.delitem k).2 = .none ∧
+      lookup a (s.delitem k).1.fwd = if a = k then none else lookup a s.fwd) := by
+  unfold OTO.delitem
+  constructor
+  · intro hn; simp [hn]
+  · intro v hv; simp [hv, lookup_erase]
+
+theorem OTO.pop_spec (s : OTO α) (k : α) (d : Option α) (a : α) :
+    (lookup k s.fwd = none → s.pop k d = (s, match d with | some x => .val x | none => .err .KeyError)) ∧
+    (∀ v, lookup k s.fwd = some v → (s.pop k d).2 = .val v ∧
+      lookup a (s.pop k d).1.fwd = if a = k then none else lookup a s.fwd) := by
+  unfold OTO.pop
+  constructor
+  · intro hn; cases d <;> simp [hn]
+  · intro v hv; simp [hv, lookup_erase]
+
+theorem OTO.popitem_spec {s : OTO α} (h : s.WF) (a : α) :
+    (s.fwd = [] → s.popitem = (s, .err .KeyError)) ∧
+    (s.fwd ≠ [] → ∃ k v, s.popitem.2 = .pair k v ∧ lookup k s.fwd = some v ∧
+      lookup a s.popitem.1.fwd = if a = k then none else lookup a s.fwd) := by
+  unfold OTO.popitem
+  constructor
+  · intro hn; simp [hn]
+  · intro hne
+    cases hl : s.fwd.getLast? with
+    | none => simp [List.getLast?_eq_none_iff] at hl; exact absurd hl hne
+    | some p =>
+      obtain ⟨k, v⟩ := p
+      exact ⟨k, v, rfl, lookup_getLast s.fwd k v h.nf hl, lookup_dropLast s.fwd k v h.nf hl a⟩
+
+theorem OTO.setdefault_spec {s : OTO α} (h : s.WF) (k d : α) :
+    (∀ v, lookup k s.fwd = some v → s.setdefault k d = (s, .val v)) ∧
+    (lookup k s.fwd = none → s.setdefault k d = (s.setitem k d, .val d)) := by
+  unfold OTO.setdefault
+  constructor
+  · intro v hv; simp [hv]
+  · intro hn; simp [hn, OTO.setitem_fwd h]
+
+/-- the constructor keeps only items of `dict(pairs)` … -/
+theorem OTO.ofPairs_sub (ps : List (α × α)) (k v : α) (h : lookup k (OTO.ofPairs ps).fwd = some v) :
+    lookup k (putAll ([] : Dict α α) ps) = some v := by
+  have hF : NodupKeys (putAll ([] : Dict α α) ps) := putAll_nodup _ _ nodupKeys_nil
+  have w := OTO.WF.ofPairs ps
+  unfold OTO.ofPairs at h w
+  split at h
+  · exact h
+  · next hne =>
+    rw [if_neg hne] at w
+    simp only at h
+    have h1 := (mem_iff_lookup _ w.nf k v).2 h
+    rw [mem_map_swap] at h1
+    rcases mem_putAll _ _ _ h1 with h2 | h2
+    · simp at h2
+    · rw [mem_map_swap] at h2
+      exact (mem_iff_lookup _ hF k v).1 h2
+
+/-- … and all of them when no value repeats -/
+theorem OTO.ofPairs_injective (ps : List (α × α))
+    (hv : ((putAll ([] : Dict α α) ps).map Prod.snd).Nodup) :
+    (OTO.ofPairs ps).fwd = putAll [] ps := by
+  have h2 : putAll ([] : Dict α α) ((putAll [] ps).map swap) = (putAll [] ps).map swap := by
+    have := putAll_of_nodup ([] : Dict α α) ((putAll [] ps).map swap) (by
+      simp only [List.nil_append]; unfold NodupKeys; rw [swap_keys]; exact hv)
+    simpa using this
+  unfold OTO.ofPairs
+  rw [h2]; simp
+
+end oto2
+
+section m2m2
+variable {α : Type} [DecidableEq α]
+
+theorem mem_iteritems {d : Dict α (List α)} (g : GoodDict d) (k v : α) :
+    (k, v) ∈ iteritems d ↔ v ∈ getSet k d := by
+  rw [← g.exists_iff]
+  simp only [iteritems, List.mem_flatMap, List.mem_map, Prod.mk.injEq]
+  constructor
+  · rintro ⟨p, hp, x, hx, h1, h2⟩; exact ⟨p, hp, h1, h2 ▸ hx⟩
+  · rintro ⟨p, hp, h1, h2⟩; exact ⟨p, hp, v, h2, h1, rfl⟩
+
+/-- `iteritems()` never yields a pair twice -/
+theorem nodup_iteritems {d : Dict α (List α)} (g : GoodDict d) : (iteritems d).Nodup := by
+  obtain ⟨nk, ne⟩ := g
+  induction d with
+  | nil => simp [iteritems]
+  | cons p r ih =>
+    obtain ⟨k, vs⟩ := p
+    have hr : NodupKeys r := by unfold NodupKeys keys at *; simp at nk; exact nk.2
+    have hk : k ∉ keys r := by unfold NodupKeys keys at nk; simp at nk; simpa [keys] using nk.1
+    have hvs : vs.Nodup := (ne k vs (by simp [lookup])).2
+    have ner : ∀ a ws, lookup a r = some ws → ws ≠ [] ∧ ws.Nodup := by
+      intro a ws ha
+      apply ne a ws
+      simp only [lookup]
+      by_cases e : k = a
+      · subst e
+        have := (lookup_none_iff k r).2 hk
+        rw [this] at ha; simp at ha
+      · simp [e, ha]
+    have := ih hr ner
+    simp only [iteritems, List.flatMap_cons] at this ⊢
+    rw [List.nodup_append]
+    refine ⟨?_, this, ?_⟩
+    · exact nodup_map_of_inj_on _ _ hvs (by intro a _ b _ e; injection e)
+    · intro x hx y hy e
+      subst e
+      simp only [List.mem_map] at hx
+      obtain ⟨v, _, rfl⟩ := hx
+      simp only [List.mem_flatMap, List.mem_map] at hy
+      obtain ⟨q, hq, w, _, e⟩ := hy
+      injection e with e1 _
+      exact hk (e1 ▸ List.mem_map_of_mem (f := Prod.fst) hq)
+
+end m2m2
+
 /-! ## FrozenDict -/
 
 theorem pairLe_iff (a b : Nat × Nat) : pairLe a b = true ↔ a.1 < b.1 ∨ (a.1 = b.1 ∧ a.2 ≤ b.2) := by
